@@ -13,6 +13,7 @@ LEVEL = dict(
                 "forest, order or page numbers.",
     trusted_base=["rustc MIR and callee resolution"],
 )
+LEVEL["rule_text"] += '; the page-number lookup of get_toc does not presume ids in ascending order'
 
 
 def keys_read(F, fn):
@@ -143,6 +144,12 @@ def _run(ctx):
     ctx.ob(R, "toc-keeps-walk-order", bool(coll) and all(re.search(r"indexmap::(map::)?IndexMap<|(^|[^A-Za-z])Vec<", t_) and not re.search(r"BTreeMap<|HashMap<", t_.split("<")[0] + "<") for t_ in coll),
            "the table of contents is collected in %s" % [t_[:40] for t_ in coll], so.where(),
            what="the table of contents is collected in %s, which does not keep the order of insertion: get_toc returns the entries sorted by title bytes (or in hash order) instead of outline order" % [t_[:60] for t_ in coll])
+    # the page number of an entry is looked up by the page's id in the pages of the document, which are in PAGE order: a search
+    # that presumes the ids ascend (binary_search, partition_point) misses pages whenever /Kids does not list them in id order
+    bs = [(x, c) for x in lib.local_scope(F, gt) for c in x.calls if re.search(r"::(binary_search|binary_search_by|binary_search_by_key|partition_point)$", c.fn or c.name)]
+    ctx.ob(R, "page-number-lookup-by-id", not bs, "get_toc finds the page number of an entry by a lookup that does not presume sorted ids", gt.where(bs[0][1].ln if bs else None),
+           what="get_toc looks the page of an entry up with %s in the list of pages, which is in page order, not in id order: entries whose page has a smaller object number than an "
+                "earlier page are not found and drop out of the table of contents" % ((bs[0][1].fn or bs[0][1].name).rsplit("::", 1)[-1] if bs else ""))
     ctx.ob(R, "title-bytes-decoded-as-stored", not cut, "get_toc removes nothing from the title bytes before decoding them", gt.where(),
            what="get_toc removes bytes from a title before decoding it (%s): a UTF-16 title whose last unit ends in a zero byte (or whatever else is cut) is rejected or changed on read-back" % [("%s line %d: %s" % t_) for t_ in cut[:3]])
     # sibling links
